@@ -599,9 +599,15 @@ pub fn run_adversary(args: &Args) -> (u64, u64) {
                 b_values.push((bv, None, s));
             }
         }
-        for c in scen.iter().filter(|c| c["side"] == "client") {
-            if c["user"].as_str() == Some(u) {
-                b_values.push((arr32(&jbytes(&c["B"])), Some(arr32(&jbytes(&c["a"]))), arr32(&jbytes(&c["salt"]))));
+        // TLC-computed hostile server keys (S = 0, base = 1, N-1, g, 2^128) for their own credentials
+        if round == 0 {
+            for c in scen.iter().filter(|c| c["side"] == "client") {
+                let (cu, cp) = (jstr_from_cps(&c["user"]), jstr_from_cps(&c["pass"]));
+                let Some(bpub) = h.pubkey(arr32(&jbytes(&c["B"]))) else { continue };
+                let a = arr32(&jbytes(&c["a"]));
+                if let Some((co, chal)) = h.client_new(&cu, &cp, 7, N_LE, bpub, arr32(&jbytes(&c["salt"])), Some(&a)) {
+                    h.verify_server_proof(co, chal, [0x5a; 20]);
+                }
             }
         }
         for (bv, a, salt) in b_values {
@@ -676,5 +682,92 @@ pub fn run_degenerate(args: &Args) -> (u64, u64) {
             }
         }
     }
+    h.tr.finish()
+}
+
+/// C04: the server's own key on TLC-solved verifiers (B must be exactly the target; t = 0 / N: documented panic),
+/// and the client's own key under announced moduli that divide the generator (documented panic).
+pub fn run_ownkey(args: &Args) -> (u64, u64) {
+    let mut h = H::new(Tr::create(&args.out)).with_det(args);
+    h.reset("ownkey");
+    let scen = read_ndjson(args.scen.as_ref().expect("--scen own-key cases"));
+    for (k, c) in scen.iter().enumerate() {
+        let v = arr32(&jbytes(&c["v"]));
+        let bk = arr32(&jbytes(&c["b"]));
+        let (vo, ver) = h.import("OWNKEY", v, [k as u8; 32]);
+        if let Some((_po, proof)) = h.into_proof(vo, ver, Some(&bk)) {
+            h.pubkey(*proof.server_public_key());
+        }
+    }
+    let one = { let mut x = [0u8; 32]; x[0] = 1; x };
+    if let Some(bpub) = h.pubkey(one) {
+        for (g, n) in [(7u8, 7u8), (255, 5), (2, 2), (3, 3), (6, 3), (250, 5), (7, 11), (2, 5)] {
+            let mut nn = [0u8; 32];
+            nn[0] = n;
+            for a in [one, [0xff; 32], [0x55; 32]] {
+                h.client_new("OWNKEY", "X", g, nn, bpub, [1u8; 32], Some(&a));
+            }
+        }
+    }
+    h.tr.finish()
+}
+
+/// C04, exhaustive: every one of the 2^32 arrays whose bytes are each 0 or N's byte at that position
+pub fn run_pubkeysweep(args: &Args) -> (u64, u64) {
+    let mut h = H::new(Tr::create(&args.out));
+    h.reset("pubkeysweep");
+    let threads = 16u64;
+    let bits: u32 = if args.tier == "thorough" || args.extra.iter().any(|x| x == "full") { 32 } else { 24 };
+    let total: u64 = 1u64 << bits;
+    let per = total / threads;
+    let mut hs = vec![];
+    for t in 0..threads {
+        hs.push(std::thread::spawn(move || {
+            let mut refused: Vec<(u32, String)> = vec![];
+            let mut accepted: u64 = 0;
+            let mut changed: u64 = 0;
+            let mut panicked: u64 = 0;
+            for m in (t * per)..((t + 1) * per) {
+                // in the reduced (quick) sweep the upper byte positions all take N's byte or all zero alternately
+                let m32: u32 = if bits == 32 { m as u32 } else { (m as u32) | if m & 1 == 1 { 0xFF00_0000 } else { 0 } };
+                let mut k = [0u8; 32];
+                for i in 0..32 {
+                    if m32 >> i & 1 == 1 {
+                        k[i] = N_LE[i];
+                    }
+                }
+                match guard(|| wow_srp::PublicKey::from_le_bytes(k)) {
+                    Ok(Ok(pk)) => {
+                        accepted += 1;
+                        if *pk.as_le_bytes() != k {
+                            changed += 1;
+                        }
+                    }
+                    Ok(Err(e)) => refused.push((m32, match e {
+                        wow_srp::error::InvalidPublicKeyError::PublicKeyIsZero => "zero".to_string(),
+                        wow_srp::error::InvalidPublicKeyError::PublicKeyModLargeSafePrimeIsZero => "modN".to_string(),
+                    })),
+                    Err(_) => panicked += 1,
+                }
+                if refused.len() > 1000 {
+                    break;
+                }
+            }
+            (refused, accepted, changed, panicked)
+        }));
+    }
+    let mut refused: Vec<(u32, String)> = vec![];
+    let (mut accepted, mut changed, mut panicked) = (0u64, 0u64, 0u64);
+    for x in hs {
+        let (r, a, c, p) = x.join().expect("sweep thread");
+        refused.extend(r);
+        accepted += a;
+        changed += c;
+        panicked += p;
+    }
+    refused.truncate(64);
+    let rj: Vec<Value> = refused.iter().map(|(m, k)| serde_json::json!({"mask": u32le(*m), "kind": k})).collect();
+    h.tr.ev(serde_json::json!({"ev": "PubKeySweep", "bits": bits, "refused": rj,
+        "accepted": [(accepted >> 16) as u64, accepted & 0xFFFF], "changed": changed, "panicked": panicked}));
     h.tr.finish()
 }
